@@ -18,9 +18,12 @@ def log(*a):
 
 # ------------------------------------------------------------------ scratch
 _scratch_dirs = []
+_OWNER = os.getpid()
 
 
 def _cleanup():
+    if os.getpid() != _OWNER:
+        return          # a forked worker must never remove its parent's scratch (build) directories
     for d in _scratch_dirs:
         shutil.rmtree(d, ignore_errors=True)
 
